@@ -16,6 +16,10 @@
 (***************************************************************************)
 EXTENDS Grouping, TLC, Json
 CONSTANTS MinN, MaxN,
+          GuiseMaxN,   \* every guise of the comparison function is enumerated for twin-free lists up to this length
+          GuiseTest,   \* "callable" (the code: the function is used as given) | "or_default" (control: `fn or default`)
+          ArgSwap,     \* "none" (the code) | "fill_geometry" (control: geometry-less events are compared through copies
+                       \*  that were given a geometry)
           GeoMaxN,     \* every non-empty set of geometry-less events is enumerated for twin-free lists up to this length
           GeoFilter,   \* "none" (the code) | "filtered" (control: events without geometry are left out of the pair loop,
                        \*  the indices then refer to the filtered list)
@@ -45,8 +49,10 @@ Repeated(m) == {a \in Range(m) : Cardinality({i \in DOMAIN m : m[i] = a}) >= 2}
 IdPairSeq(m) == LET k == NumIds(m)
                     all == [q \in 1..(k * k) |-> <<((q - 1) \div k) + 1, ((q - 1) % k) + 1>>]
                 IN  SelectSeq(all, LAMBDA p : p[1] < p[2] \/ (p[1] = p[2] /\ p[1] \in Repeated(m)))
-GraphG(n, m, G, rt, N) == [n |-> n, id |-> m, e |-> SelectSeq(IdPairSeq(m), LAMBDA p : p \in G), ret |-> rt,
-                           ng |-> SelectSeq([i \in 1..n |-> i], LAMBDA a : a \in N)]
+GraphZ(n, m, G, rt, N, gz) == [n |-> n, id |-> m, e |-> SelectSeq(IdPairSeq(m), LAMBDA p : p \in G), ret |-> rt,
+                               ng |-> SelectSeq([i \in 1..n |-> i], LAMBDA a : a \in N),
+                               gd |-> N # {}, guise |-> gz]       \* with geometry-less events the function also looks
+GraphG(n, m, G, rt, N) == GraphZ(n, m, G, rt, N, "function")
 Graph(n, m, G, rt) == GraphG(n, m, G, rt, {})
 
 Init == /\ \E n \in MinN..MaxN :
@@ -55,6 +61,8 @@ Init == /\ \E n \in MinN..MaxN :
                    \/ \E rt \in (IF n <= RetMaxN /\ m = Identity(n) THEN RetTypes ELSE {"bool"}) : c = Graph(n, m, G, rt)
                    \* some events have no geometry: first, middle, last, several, all
                    \/ n <= GeoMaxN /\ m = Identity(n) /\ \E N \in (SUBSET (1..n)) \ {{}} : c = GraphG(n, m, G, "bool", N)
+                   \* the comparison function in its other guises
+                   \/ n <= GuiseMaxN /\ m = Identity(n) /\ \E gz \in Guises \ {"function"} : c = GraphZ(n, m, G, "bool", {}, gz)
         /\ pc = "pairs" /\ pi = 1 /\ mat = {} /\ calls = <<>>
         /\ lab = [i \in Nodes(c) |-> -1] /\ nl = 0 /\ fr = {} /\ gi = 1 /\ seqs = <<>> /\ steps = 0
 
@@ -63,13 +71,19 @@ Loc == IF GeoFilter = "filtered" THEN SelectSeq([i \in 1..c.n |-> i], LAMBDA i :
        ELSE [i \in 1..c.n |-> i]
 PS == PairSeq(Len(Loc))
 \* the pair is linked when the answer passes the test of the code: truthiness, or (control) identity with True
-Linked(i, j) == Edge(c, i, j) /\ (TruthTest = "truthy" \/ c.ret = "bool")
+\* control "fill_geometry": the argument standing in for a geometry-less event is not that event
+Genuine(i) == ~(ArgSwap = "fill_geometry" /\ c.id[i] \in Range(c.ng))
+Flag(i) == IF Genuine(i) THEN 1 ELSE 0
+\* control "or_default": a falsy callable is replaced by a default relation (no link between these events)
+Replaced == GuiseTest = "or_default" /\ Falsy(c.guise)
+Linked(i, j) == /\ Edge(c, i, j) /\ (TruthTest = "truthy" \/ c.ret = "bool")
+                /\ (c.gd => (Genuine(i) /\ Genuine(j))) /\ ~Replaced
 PairHit  == /\ pc = "pairs" /\ pi <= Len(PS) /\ Linked(Loc[PS[pi][1]], Loc[PS[pi][2]])
-            /\ calls' = Append(calls, <<c.id[Loc[PS[pi][1]]], c.id[Loc[PS[pi][2]]]>>)
+            /\ calls' = Append(calls, <<c.id[Loc[PS[pi][1]]], c.id[Loc[PS[pi][2]]], Flag(Loc[PS[pi][1]]), Flag(Loc[PS[pi][2]])>>)
             /\ mat' = mat \cup {<<PS[pi][1], PS[pi][2]>>, <<PS[pi][2], PS[pi][1]>>}
             /\ pi' = pi + 1 /\ UNCHANGED <<c, pc, lab, nl, fr, gi, seqs>>
 PairMiss == /\ pc = "pairs" /\ pi <= Len(PS) /\ ~Linked(Loc[PS[pi][1]], Loc[PS[pi][2]])
-            /\ calls' = Append(calls, <<c.id[Loc[PS[pi][1]]], c.id[Loc[PS[pi][2]]]>>)
+            /\ calls' = Append(calls, <<c.id[Loc[PS[pi][1]]], c.id[Loc[PS[pi][2]]], Flag(Loc[PS[pi][1]]), Flag(Loc[PS[pi][2]])>>)
             /\ pi' = pi + 1 /\ UNCHANGED <<c, pc, mat, lab, nl, fr, gi, seqs>>
 PairsDone == pc = "pairs" /\ pi > Len(PS) /\ pc' = "label" /\ UNCHANGED <<c, pi, mat, calls, lab, nl, fr, gi, seqs>>
 
@@ -111,7 +125,7 @@ ImplLabelSound == pc \in {"label", "group"} /\ gi = 1 =>                  \* lab
     LET cf == CompF(c) IN
     /\ \A i, j \in Nodes(c) : (lab[i] # -1 /\ lab[i] = lab[j]) => j \in cf[i]
     /\ \A i \in Nodes(c) : (lab[i] # -1 /\ (lab[i] < nl - 1 \/ fr = {})) => \A j \in cf[i] : lab[j] = lab[i]
-ImplEveryPairOnce == (pc = "label" /\ nl = 0) => calls = [k \in DOMAIN PS |-> <<c.id[PS[k][1]], c.id[PS[k][2]]>>]
+ImplEveryPairOnce == (pc = "label" /\ nl = 0) => calls = [k \in DOMAIN PS |-> <<c.id[PS[k][1]], c.id[PS[k][2]], 1, 1>>]
 (* ---- laws of Req, once per graph ---- *)
 Laws == (pc = "label" /\ nl = 0 /\ fr = {}) =>        \* the state after the last pair (not the initial state: TLC computes those single-threaded)
            /\ LawEquivalence(c) /\ LawContainsEdges(c) /\ LawLeast(c) /\ LawWarshall(c) /\ LawNoEdgeNoLink(c) /\ LawTwins(c) /\ WellFormed(c)
